@@ -59,10 +59,12 @@ fn enumerate_notes(tier: Tier, c10: bool, emit: &mut dyn FnMut(&str)) {
         Tier::Thorough => (5, 2),
     };
     for owner in owners() {
-        if c10 && owner != "1" {
-            continue;
-        }
-        let leaves = if c10 { vec![N::P, N::H(1), N::H(2), N::H(3), N::CF, N::T, N::RefUrl("2"), N::R] } else { leaves_for(owner, false) };
+        let leaves = if c10 {
+            // list / section conversions: one reference kind is enough, but both directories
+            vec![N::P, N::H(1), N::H(2), N::H(3), N::CF, N::T, N::RefUrl(if owner == "1" { "2" } else { "../2" }), N::R]
+        } else {
+            leaves_for(owner, false)
+        };
         for f in space::forests_over(n, depth, &leaves, false) {
             if f.is_empty() {
                 continue;
@@ -420,8 +422,8 @@ impl Engine for C10 {
     }
     fn bound(&self, tier: Tier) -> String {
         match tier {
-            Tier::Quick => "forests <= 4 nodes, nesting <= 2".into(),
-            Tier::Thorough => "forests <= 5 nodes, nesting <= 2".into(),
+            Tier::Quick => "forests <= 4 nodes, nesting <= 2, owners {1, d/5}".into(),
+            Tier::Thorough => "forests <= 5 nodes, nesting <= 2, owners {1, d/5}".into(),
         }
     }
     fn assumptions(&self) -> Vec<String> {
